@@ -291,7 +291,6 @@ const ClockSkewGracePeriod = time.Minute * 2
 func genCertTemplateFromCSR(csr *x509.CertificateRequest, subjectIDs []string, ttl time.Duration, isCA bool, signingCert *x509.Certificate) (
 	*x509.Certificate, error,
 ) {
-	subjectIDsInString := strings.Join(subjectIDs, ",")
 	var keyUsage x509.KeyUsage
 	extKeyUsages := []x509.ExtKeyUsage{}
 	if isCA {
@@ -305,7 +304,9 @@ func genCertTemplateFromCSR(csr *x509.CertificateRequest, subjectIDs []string, t
 	}
 
 	// Build cert extensions with the subjectIDs.
-	ext, err := BuildSubjectAltNameExtension(subjectIDsInString)
+	// One SAN per subject ID. The IDs must not be joined into (and split back from) a comma separated list:
+	// an ID containing a comma would come back as several identities.
+	ext, err := buildSubjectAltNameExtension(subjectIDs)
 	if err != nil {
 		return nil, err
 	}
@@ -313,11 +314,12 @@ func genCertTemplateFromCSR(csr *x509.CertificateRequest, subjectIDs []string, t
 
 	subject := pkix.Name{}
 	// Dual use mode if common name in CSR is not empty.
-	// In this case, set CN as determined by DualUseCommonName(subjectIDsInString).
-	if len(csr.Subject.CommonName) != 0 {
-		if cn, err := DualUseCommonName(subjectIDsInString); err != nil {
+	// In this case, set CN to the first subject ID (cn uses one ID, the rest is dropped), unless it exceeds
+	// the cn max length of 64 (ub-common-name @ https://tools.ietf.org/html/rfc5280).
+	if len(csr.Subject.CommonName) != 0 && len(subjectIDs) != 0 {
+		if cn := subjectIDs[0]; len(cn) > 64 {
 			// log and continue
-			log.Errorf("dual-use failed for cert template - omitting CN (%v)", err)
+			log.Errorf("dual-use failed for cert template - omitting CN (certificate CN upper bound exceeded (%v>64): %s)", len(cn), cn)
 		} else {
 			subject.CommonName = cn
 		}
